@@ -107,14 +107,26 @@ def check_for_lower_case(sActualValue, sPrefix, sWord, sSuffix, oToi, iIndex, iL
         return create_case_violation(sActualValue, sExpectedValue, oToi, iIndex, iLine)
 
 
+def convert_to_upper_case(sString):
+    # Characters such as the sharp s have no single upper case equivalent; str.upper() would change or lengthen the name.
+    lChars = []
+    for sChar in sString:
+        sUpper = sChar.upper()
+        if len(sUpper) == 1 and sUpper.lower() == sChar.lower():
+            lChars.append(sUpper)
+        else:
+            lChars.append(sChar)
+    return "".join(lChars)
+
+
 def check_for_upper_case(sActualValue, sPrefix, sWord, sSuffix, oToi, iIndex, iLine, self):
-    sExpectedValue = sPrefix + sWord.upper() + sSuffix
+    sExpectedValue = sPrefix + convert_to_upper_case(sWord) + sSuffix
     if not sActualValue == sExpectedValue:
         return create_case_violation(sActualValue, sExpectedValue, oToi, iIndex, iLine)
 
 
 def check_for_upper_or_lower_case(sActualValue, sPrefix, sWord, sSuffix, oToi, iIndex, iLine, self):
-    sExpectedUpperValue = sPrefix + sWord.upper() + sSuffix
+    sExpectedUpperValue = sPrefix + convert_to_upper_case(sWord) + sSuffix
     sExpectedLowerValue = sPrefix + sWord.lower() + sSuffix
     if not sActualValue == sExpectedUpperValue and not sActualValue == sExpectedLowerValue:
         sSolution = f'Change "{sActualValue}" to "{sExpectedUpperValue}" or "{sExpectedLowerValue}"'
